@@ -365,7 +365,62 @@ def r5_who_reads_body(ctx):
     ctx.check(R, "into_bytes_mut-reads-capped-stream", uses_stream and not other, "into_bytes_mut folds self.into_stream()=%s; other readers=%s" % (uses_stream, other or "none"), ib)
 
 
-RULES = [("C11.R1", r1_cap_before_delivery), ("C11.R2", r2_refusal_final), ("C11.R3", r3_cap_provenance), ("C11.R4", r4_effective_limit), ("C11.R5", r5_who_reads_body)]
+
+def r6_only_counted_bytes_refuse(ctx):
+    """Added after adversary change C09-B (a `size_hint().upper().unwrap_or(u64::MAX) > cap` fail-fast that refuses every
+    body without a declared length): a body of at most `cap` bytes must be accepted however it is framed, so a refusal may
+    only be caused by bytes actually counted, by a *sound* lower bound on them, or by a transport error."""
+    R = ctx.rule("C11.R6", "every error emitted by the body stream is either the propagation of a frame / drain failure, or is dominated by the refusing edge of a comparison against "
+                 "self.cap whose other side is the counted total (bytes_read + len) or a sound lower bound of the remaining length (SizeHint::lower / exact)", floor=3)
+    top, g = _stream_coroutine(ctx, R)
+    sends = _sends(g)
+    errs = [(bb, t, sl) for bb, t, k, sl in sends if k == "err"]
+    ctx.check(R, "error-sends", len(errs) >= 3, "error sends in the stream coroutine: %d" % len(errs), g)
+    # every comparison against cap in the coroutine
+    cap_fields = set()
+    for bb, i, st in top.stmts():
+        if st["rv"]["rv"] == "agg" and st["rv"].get("def") == g.raw["id"]:
+            for idx, op in enumerate(st["rv"]["ops"]):
+                s0 = top.slice(op)
+                if any(pf[0] == 1 and any(e.endswith(":cap") for e in pf[1]) for pf in s0.param_fields()):
+                    cap_fields.add(idx)
+
+    def mentions_cap(op):
+        s1 = g.slice(op)
+        return any(p[0] == 1 and any(e.startswith("f%d:" % c) for c in cap_fields for e in p[1]) for p in s1.param_fields())
+    guards = []
+    for wbb, wt in g.switches():
+        cmp = comparison_of(g, wbb)
+        if not cmp:
+            continue
+        a_cap, b_cap = mentions_cap(cmp["a"]), mentions_cap(cmp["b"])
+        if a_cap == b_cap:
+            continue
+        other = cmp["b"] if a_cap else cmp["a"]
+        os_ = g.slice(other)
+        counted = os_.has_call(r"bytes::Bytes::len$|bytes::Buf::remaining$") and any(a[0] == "binop" and a[1].startswith("Add") for a in os_.atoms)
+        hint_calls = [c for c in os_.callee_names() if "SizeHint" in c or "size_hint" in c]
+        sound_hint = bool(hint_calls) and all(c.endswith("SizeHint::lower") or c.endswith("SizeHint::exact") or c.endswith("::size_hint") or "Option::<T>::unwrap_or" in c for c in hint_calls) \
+            and not any(c.endswith("SizeHint::upper") for c in hint_calls) and (os_.has_call(r"SizeHint::lower$") or os_.has_call(r"SizeHint::exact$"))
+        guards.append({"bb": wbb, "true": cmp["true"], "false": cmp["false"], "counted": counted, "sound_hint": sound_hint, "names": os_.callee_names()})
+    for bb, t, sl in errs:
+        dom = []
+        for gd in guards:
+            for edge in ("true", "false"):
+                if gd[edge] is not None and g.edge_dominates(gd["bb"], gd[edge], bb):
+                    dom.append(gd)
+        propagated = sl.has_call(r"BodyExt::frame$|http_util::http_dump_body$") or (sl.has_call(r"Result::<T, E>::map_err$") and not any(a[0] == "agg" and a[1] == "std::result::Result" and a[2] == "Err" and False for a in sl.atoms))
+        is_prop = sl.has_call(r"BodyExt::frame$|http_util::http_dump_body$|Result::<T, E>::map_err$|FromResidual::from_residual$") and not sl.has_call(r"^error::HttpError::for_") 
+        bad = [gd for gd in dom if not (gd["counted"] or gd["sound_hint"])]
+        if dom:
+            ctx.check(R, "refusal-cause", not bad,
+                      "error send guarded by %d comparison(s) with cap; all on counted bytes or a sound lower bound: %s%s" % (
+                          len(dom), not bad, ("" if not bad else " — refusal decided from %s, which is not a lower bound of the body length (an undeclared length would always be refused)" % [c for c in bad[0]["names"] if "ize" in c or "unwrap" in c])), (g, bb))
+        else:
+            ctx.check(R, "refusal-cause", is_prop or sl.has_call(r"Result::<T, E>::map_err$"),
+                      "error send outside any cap comparison is the propagation of a frame/drain failure: %s" % (is_prop or sl.has_call(r"Result::<T, E>::map_err$")), (g, bb))
+
+RULES = [("C11.R1", r1_cap_before_delivery), ("C11.R2", r2_refusal_final), ("C11.R3", r3_cap_provenance), ("C11.R4", r4_effective_limit), ("C11.R5", r5_who_reads_body), ("C11.R6", r6_only_counted_bytes_refuse)]
 
 SELFTEST = [
     {"name": "ge-for-gt", "kind": "mutant", "edits": [("dropshot/src/extractor/body.rs", "if bytes_read + len > self.cap {", "if bytes_read + len >= self.cap {")], "expect": ["C11.R1"],
